@@ -149,6 +149,19 @@ def reduce_of_var(facts, body, local):
     for d, v in updates:
         r = _combine(v, isacc)
         if r is None:
+            # conditional replacement `if e < acc { acc = e }` is a running minimum (`>`: maximum)
+            from .sym import atoms_at
+            for tt, pol, g in atoms_at(body, d.bb):
+                c = peel(nosite(tt))
+                if pol is None or c[0] != 'bin' or c[1] not in ('Lt', 'Le', 'Gt', 'Ge'):
+                    continue
+                a_, b_ = nosite(peel(c[2])), nosite(peel(c[3]))
+                opn = c[1] if pol else {'Lt': 'Ge', 'Le': 'Gt', 'Gt': 'Le', 'Ge': 'Lt'}[c[1]]
+                if isacc(b_) and core(a_) == core(v):
+                    r = ({'Lt': 'min', 'Le': 'min', 'Gt': 'max', 'Ge': 'max'}[opn], v)
+                elif isacc(a_) and core(b_) == core(v):
+                    r = ({'Lt': 'max', 'Le': 'max', 'Gt': 'min', 'Ge': 'min'}[opn], v)
+        if r is None:
             # call form: AddAssign::add_assign(&mut acc, e) does not define acc; not handled here
             return None
         if op is not None and op != r[0]:
